@@ -46,7 +46,8 @@ def bounds(tier):
 def required_guards(tier):
     return ['height>=3', 'single_child_interior', 'roundtrips', 'usable_ops', 'byte_compared',
             'cross_loaded', 'embedded_form', 'empty_form', 'db_commits', 'db_records_compared',
-            'db_cross_reads', 'db_cross_writes', 'subclass_cases', 'subclass_pickles_compared']
+            'db_cross_reads', 'db_cross_writes', 'subclass_cases', 'subclass_pickles_compared',
+            'deep_pickles_compared']
 
 
 def configs(tier):
@@ -99,6 +100,12 @@ def jobs(tier):
                 js.append({'fn': 'db_job', 'weight': 10, 'group': 'db/%s' % kind,
                            'args': dict(fam=fam, kind=kind, sizes=(3, 2), n=4 if tier == 'quick' else 5)})
         js.append({'fn': 'subclass_job', 'weight': 1, 'group': 'subclass', 'args': dict(fam=fam)})
+    for fam in (('II', 'OO') if tier == 'quick' else F.COVER):
+        for kind in F.TREE_KINDS:
+            for sz, n, order in ([((2, 3), 11, 'asc'), ((3, 2), 10, 'desc')] if tier == 'quick' else
+                                 [((2, 3), 12, 'asc'), ((3, 2), 12, 'desc'), ((2, 4), 12, 'mid')]):
+                js.append({'fn': 'deep_job', 'weight': 40, 'group': 'deep/' + kind,
+                           'args': dict(fam=fam, kind=kind, sizes=sz, n=n, order=order)})
     return js
 
 
@@ -552,9 +559,34 @@ def subclass_job(fam):
                 guards=dict(guards), outcomes={}, violations=rep.all(), sample=sample)
 
 
+def deep_job(fam, kind, sizes, n, order):
+    """Byte identity of C and Python pickles (and equal state shape) along a scripted growth of n
+    keys and over its complete thinning space at asymmetric node sizes - the lock-step walk of
+    vt.props.c09.deep_job, judged for this property."""
+    from . import c09
+    r = c09.deep_job(fam, kind, sizes, n, order)
+    out = []
+    for v in r['violations']:
+        v = dict(v)
+        v['prop'] = 'C06'
+        v['sig'] = dict(v['sig'], deep=True)
+        v['case'] = dict(v['case'], deep06=True)
+        out.append(v)
+    r['violations'] = out
+    g = dict(r.get('guards', {}))
+    g['deep_pickles_compared'] = g.pop('pickles_compared', 0)
+    g.pop('height>=3', None)
+    r['guards'] = g
+    return r
+
+
 def replay(case):
     """Re-run the whole monitor in the recorded state; report what it reports."""
     from ..explore import Explorer
+    if case.get('deep06'):
+        r = deep_job(case['fam'], case['kind'], tuple(case['sizes']), case['n'], case['order'])
+        vs = [v for v in r['violations'] if v['case'].get('history') == case.get('history')]
+        return dict(violations=vs)
     if case.get('db'):
         r = db_job(case['fam'], case['kind'], case.get('sizes') and tuple(case['sizes']), case['n'])
         vs = [v for v in r['violations'] if v['case'].get('history') == case.get('history')
